@@ -94,6 +94,10 @@ def _ops(n_p, sched='round_robin'):
                        st.lists(pidx, min_size=1, max_size=n_p, unique=True))
     remove = st.tuples(st.just('remove'),
                        st.lists(pidx, min_size=1, max_size=2, unique=True))
+    pbulk  = st.tuples(st.just('pstate_bulk'),
+                       st.lists(st.tuples(st.sampled_from(list(range(n_p)) + [FOREIGN]),
+                                          st.sampled_from([3, 4, 4, 4, 5, 6])).map(list),
+                                min_size=2, max_size=3, unique_by=lambda x: x[0]))
     pstate = st.tuples(st.just('pstate'), pidx,
                        st.sampled_from([0, 1, 2, 3, 3, 3, 4, 4, 4, 4, 4, 4, 5, 6, 7]),
                        st.sampled_from([0, 0, 0, 0, 0, 0, 1, 2]))
@@ -116,10 +120,10 @@ def _ops(n_p, sched='round_robin'):
     foreign = st.one_of(f_add, f_add, f_rem, f_pst, f_task, f_task, f_task)
     if sched == 'backfilling':
         # completion notifications drive the backfilling: weigh them up
-        mix = [submit] * 5 + [add] * 2 + [remove] * 2 + [pstate] * 3 + \
+        mix = [submit] * 5 + [add] * 2 + [remove] * 2 + [pstate] * 3 + [pbulk] + \
               [tstate] * 3 + [finish] * 4 + [foreign]
     else:
-        mix = [submit] * 5 + [add] * 3 + [remove] * 2 + [pstate] * 4 + \
+        mix = [submit] * 5 + [add] * 3 + [remove] * 2 + [pstate] * 4 + [pbulk] + \
               [tstate] * 3 + [finish] * 2 + [foreign]
     return st.one_of(*mix).map(list)
 
@@ -164,6 +168,18 @@ def histories(draw, sched):
                 ['pstate', i, draw(st.sampled_from([5, 6, 7])), 0],
                 ['pstate', i, draw(st.sampled_from([3, 4, 4])), 1],
                 ['submit', [[-1, 1, 1] for _ in range(draw(st.integers(1, 3)))]]]
+    elif sched == 'backfilling' and draw(st.integers(0, 3)) == 0:
+        # work waits; then ONE notification reports several pilots, among them (in any position)
+        # pilots this task manager never added or removed again, and makes an added one eligible
+        j = draw(st.integers(0, n_p - 1))
+        others = [FOREIGN] + [k for k in range(n_p) if k != j]
+        lead = draw(st.lists(st.sampled_from(others), min_size=1, max_size=2, unique=True))
+        bulk = [[k, 4] for k in lead] + [[j, 4]]
+        if draw(st.booleans()):
+            bulk = list(reversed(bulk))
+        ops += [['remove', [k for k in lead if k != FOREIGN]]] if any(k != FOREIGN for k in lead) else []
+        ops += [['submit', [[-1, 1, 1] for _ in range(draw(st.integers(1, 3)))]],
+                ['add', [j]], ['pstate_bulk', bulk]]
     elif sched == 'backfilling' and draw(st.integers(0, 3)) == 0:
         # a pilot's state notification overtakes its add_pilots (whose pilot document is older)
         j = draw(st.integers(0, n_p - 1))
@@ -514,6 +530,29 @@ def run_case(case):             # noqa: C901
                             and PVAL[sstate[pid]] > w_hi:
                         nt['left_window'] = True
                 sim.pilot_state(sim.pilots[i], state, notify=(mode != 2), obj=(mode != 1))
+
+            elif kind == 'pstate_bulk':
+                # one notification for several pilots - also pilots this task manager does not
+                # (or no longer) schedule over, in any position
+                pairs = []
+                for i, sidx in op[1]:
+                    if i == FOREIGN:
+                        state = pilot_final(fuid, P_STATES[int(sidx) % len(P_STATES)])
+                        pairs.append((sim.fpilot, state))
+                        seen['foreign'] += 1
+                        continue
+                    i     = int(i) % n_p
+                    pid   = puid[i]
+                    state = pilot_final(pid, P_STATES[int(sidx) % len(P_STATES)])
+                    old = sstate.get(pid)
+                    sstate[pid] = p_step(old, state)
+                    if role.get(pid) == ADDED and w_lo <= PVAL[old] <= w_hi \
+                            and PVAL[sstate[pid]] > w_hi:
+                        nt['left_window'] = True
+                    pairs.append((sim.pilots[i], state))
+                if pairs:
+                    seen['pstate_bulk'] = seen.get('pstate_bulk', 0) + 1
+                    sim.pilot_states_bulk(pairs)
 
             elif kind in ('tstate', 'finish'):
                 things = []
